@@ -204,6 +204,7 @@ async fn resolve_with_nameserver_response<'a>(
             rrs, delegation, ..
         } => {
             context.cache.insert_all(&rrs);
+            context.remember_glue(&rrs);
             if question.qtype == QueryType::Record(RecordType::A) {
                 if get_record(&rrs, &question.name, RecordType::A).is_some() {
                     tracing::trace!("got recursive delegation - using glue A record");
@@ -339,6 +340,12 @@ async fn resolve_hostname_to_ip<'a>(
                 if address.is_some() {
                     return address;
                 }
+            }
+            // neither zones nor cache have it: a referral followed earlier in
+            // this request may have carried it as glue
+            let address = get_ip(context.glue(), &question.name, rtype);
+            if address.is_some() {
+                return address;
             }
         } else if let Ok(result) = resolve_recursive_notimeout(context, &question).await {
             let address = get_ip(&result.rrs(), &question.name, rtype);
